@@ -81,3 +81,33 @@ Example C01_live_nonvacuous :
 Proof.
   split; [repeat constructor; cbn; try exact I|]. split; vm_compute; reflexivity.
 Qed.
+
+(* ---- the same with Session.Close in the history, for factories whose sessions own no key cache (shared intermediate-key cache, or
+   intermediate-key caching off): then Session.Close touches no cache, and any session of the partition - even a closed one -
+   decrypts what was encrypted before.  (Per-session key caches that are closed, the session cache and SessionFactory.Close remain
+   outside the theorems: C08/C16 models, correspondence, monitors.) *)
+From Asherah Require Import Envelope.LiveClose.
+
+Theorem C01_roundtrip_with_session_closes : forall svc prod h s1 x1 payload faults,
+  HInv svc prod h -> HILC svc prod (h_world h) -> nth_error (w_sessions (h_world h)) s1 = Some x1 ->
+  match hstep h (HEncrypt s1 payload faults) with
+  | (OEnc _ _, _, h1) =>
+      forall ops s2 x2, Forall (benignC svc prod) ops ->
+        let h2 := snd (hrun h1 ops) in
+        nz_store (w_store (h_world h2)) -> nth_error (w_sessions (h_world h2)) s2 = Some x2 -> p_id (ss_part x2) = p_id (ss_part x1) ->
+        fst (fst (hstep h2 (HDecrypt s2 (List.length (h_recs h)) [] []))) = ODec (Some payload)
+  | _ => True
+  end.
+Proof. exact encrypt_then_decrypt_live_closing. Qed.
+Print Assumptions C01_roundtrip_with_session_closes.
+
+Theorem C01_closing_invariants_reachable : forall svc prod t0 ops,
+  Forall (benignC svc prod) ops -> HInv svc prod (snd (hrun (hinit t0) ops)) /\ HILC svc prod (h_world (snd (hrun (hinit t0) ops))).
+Proof. exact live_invariants_reachable_closing. Qed.
+Print Assumptions C01_closing_invariants_reachable.
+
+Example C01_closing_nonvacuous :
+  let h := snd (hrun (hinit Rotation.t0) closing_ops) in
+  Forall (benignC (s "svc") (s "prod")) closing_ops /\ nz_storeb (w_store (h_world h)) = true /\
+  fst (fst (hstep h (HDecrypt 1 0 [] []))) = ODec (Some 5%nat) /\ fst (fst (hstep h (HDecrypt 0 0 [] []))) = ODec (Some 5%nat).
+Proof. exact closing_nonvacuous. Qed.
